@@ -78,12 +78,22 @@ def classes(vc):
     return out
 
 
-def build(vc, fam, values=None, fixed=None):
-    """Fam(**values, f_<n>=fixed[n])"""
-    kw = dict(values or {})
-    for n, v in (fixed or {}).items():
-        kw[f"f_{n}"] = v
-    return classes(vc)[fam](**kw)
+def build(vc, fam, values=None, fixed=None, order="plain_first"):
+    """Fam(**values, f_<n>=fixed[n]) with the keywords in the requested order:
+    plain_first  Fam(a=.., b=.., f_a=..)      f_first  Fam(f_a=.., a=.., b=..)
+    positional   Fam(a_value, b_value, f_a=..)  (plain values positionally, in signature order)"""
+    values = dict(values or {})
+    fkw = {f"f_{n}": v for n, v in (fixed or {}).items()}
+    if order == "f_first":
+        return classes(vc)[fam](**fkw, **values)
+    if order == "positional":
+        names = NAMES[fam]
+        k = 0
+        while k < len(names) and names[k] in values:
+            k += 1
+        rest = {n: v for n, v in values.items() if n not in names[:k]}
+        return classes(vc)[fam](*[values[n] for n in names[:k]], **rest, **fkw)
+    return classes(vc)[fam](**values, **fkw)
 
 
 def call(dist, fam, method, arg, overrides=None, pass_kind="kw", random_state=None):
